@@ -13,6 +13,14 @@ effect.  The specification side of clear_incompatible (lean/PM/KeptChildren.lean
 filter `keptChildren` + fillers; theorems clearIncompatible_spec / setBlockType_spec) is tied through the
 `retypedChildren` request: every completed call of the real clear_incompatible (inside set_block_type and called
 directly on random nodes and types) is recorded, and the children it left must be exactly what the function says.
+The same planners with the Fitter *model* plugged in (lean/PM/TypePlanFit.lean: `replaceStep` of lean/PM/Fitter.lean
+instead of recorded answers; bridge theorems `…F_agrees` / `…F_eq_of_fits`) are tied exactly on the bundled-family
+schemas through `planNodeOpF` (no recorded answers sent: step list, final document, number of consultations).  The
+theorems about runs that do consult the Fitter are evaluated on every real clear_incompatible call on a node with
+content: `fillRequest` (fill_fitsTrivially_iff: the Fitter is consulted iff the walk does not end at a valid end, there
+are fillers, and the node as it is — old type, old children — cannot take them behind its last child) and `clearKeeps`
+(clearIncompatibleF_keeps: the result begins with everything before the node, its open token and exactly keptChildren;
+text and leaf content behind the node survive).
 Search: per-token oracle computed from to_json(): qualifying inline tokens inside the range carry
 the mark (documented add rule), matching marks are gone after removal, text/structure and marks
 outside the range are unchanged, node-level edits change only the addressed node, retyping keeps
@@ -59,13 +67,28 @@ _CLEAR_ON = [False]
 _orig_clear = Transform.clear_incompatible
 
 
+# A second log keeps, for every call (completed or not), what the theorems about runs that do consult the Fitter speak
+# about: the documents before and after, the position, the number of Fitter calls and the steps recorded meanwhile
+# (clearIncompatibleF_keeps / fill_fitsTrivially_iff of lean/Props/C13.lean; requests `clearKeeps`, `fillRequest`).
+_CLEAR_LOG2 = []
+
+
 def _logged_clear(self, pos, parent_type, match=None):
     if not _CLEAR_ON[0]:
         return _orig_clear(self, pos, parent_type, match)
     before = gen.safe_node_at(self.doc, pos)
+    doc_before, nsteps = self.doc, len(self.steps)
     nfit = len(_FIT_LOG)
-    r = _orig_clear(self, pos, parent_type, match)
+    try:
+        r = _orig_clear(self, pos, parent_type, match)
+    except core.Timeout:
+        raise
+    except Exception:  # noqa: BLE001
+        _CLEAR_LOG2.append((before, parent_type, match, doc_before, pos, None, len(_FIT_LOG) - nfit, None))
+        raise
     _CLEAR_LOG.append((before, parent_type, match, gen.safe_node_at(self.doc, pos), len(_FIT_LOG) - nfit))
+    _CLEAR_LOG2.append((before, parent_type, match, doc_before, pos, self.doc, len(_FIT_LOG) - nfit,
+                        list(self.steps[nsteps:])))
     return r
 
 
@@ -230,6 +253,36 @@ def run(ctx):
                     for t_ in tags:
                         ctx.count(f"kept_tie:{t_}")
                 continue
+            if isinstance(exp, tuple) and exp[0] == "fillreq":
+                # when is the Fitter consulted by clear_incompatible?  (fill_fitsTrivially_iff: iff the walk does not end at
+                # a valid end, there are fillers, and the node as it is — old type, old children — cannot take them)
+                _, nfit, completed = exp
+                got = out.get("ok")
+                if not isinstance(got, list):
+                    ctx.mismatch("fillRequest", replay, "an answer", out)
+                    continue
+                predicted = (not got[0]) and got[1] > 0 and got[2] is False
+                if completed or nfit:
+                    if predicted != (nfit > 0):
+                        ctx.mismatch("fillRequest: Fitter consulted", replay, nfit, got)
+                    else:
+                        ctx.count("fill_request_tie")
+                        ctx.count("fill_request_tie:" + ("valid_end" if got[0] else "no_fillers" if got[1] == 0 else
+                                                         "fits_trivially" if got[2] else "fitter_consulted"))
+                continue
+            if isinstance(exp, tuple) and exp[0] == "keeps":
+                # clearIncompatibleF_keeps on the real documents: prefix (always), text and content behind (no replace-around)
+                _, around, nfit = exp
+                got = out.get("ok")
+                if not isinstance(got, list) or got[0] is not True or (not around and (got[1] is not True or got[2] is not True)):
+                    ctx.mismatch("clearKeeps", replay, [True, True, True], out)
+                else:
+                    ctx.count("keeps_tie")
+                    if nfit:
+                        ctx.count("keeps_tie:fitter_consulted")
+                    if around:
+                        ctx.count("keeps_tie:replace_around(prefix only)")
+                continue
             if isinstance(exp, tuple) and exp[0] == "planF":
                 # exact tie of a planner with the Fitter model plugged in (no recorded answers): step list, final document
                 # and the number of times the Fitter was consulted
@@ -359,6 +412,23 @@ def run(ctx):
             reqs.append({"op": "retypedChildren", "s": info.lean_id, "node": info.node(before), "type": info.nid[pty.name]})
             metas.append((dict(replay, clear_incompatible={"node": before.to_json(), "type": pty.name}), ("kept", new_kids, tags)))
 
+    def keeps_requests(clear_log2, replay):
+        """for every clear_incompatible call on a node with content (match=None): the consultation prediction, and — for
+        completed calls — the conclusion of clearIncompatibleF_keeps on the documents before / after"""
+        from prosemirror.transform.replace_step import ReplaceAroundStep
+        for (before, pty, match, doc_before, pos, doc_after, nfit, steps) in clear_log2:
+            if before is None or before.is_leaf or match is not None:
+                continue
+            rp = dict(replay, clear_incompatible={"pos": pos, "node": before.to_json(), "type": pty.name})
+            reqs.append({"op": "fillRequest", "s": info.lean_id, "node": info.node(before), "type": info.nid[pty.name]})
+            metas.append((rp, ("fillreq", nfit, doc_after is not None)))
+            if doc_after is None:
+                continue
+            around = any(isinstance(s_, ReplaceAroundStep) for s_ in steps)
+            reqs.append({"op": "clearKeeps", "s": info.lean_id, "doc": info.node(doc_before), "after": info.node(doc_after),
+                         "pos": pos, "type": info.nid[pty.name]})
+            metas.append((rp, ("keeps", around, nfit)))
+
     fam = schemas.family()
     kinds = ["add_mark", "remove_mark", "add_node_mark", "remove_node_mark", "set_node_attribute",
              "set_block_type", "set_node_markup"]
@@ -426,6 +496,7 @@ def run(ctx):
                 tr = Transform(d)
                 del _FIT_LOG[:]
                 del _CLEAR_LOG[:]
+                del _CLEAR_LOG2[:]
                 old_before = doc_tokens(d)      # the token picture of the input, taken before the operation runs
                 st, val, added = ops.run_op(tr, thunk)
                 fit_log = list(_FIT_LOG)
@@ -462,6 +533,7 @@ def run(ctx):
                                                bool(fit_log) and fit_log[-1][0] == "err" and st != "ok")))
                 if st != "hang":
                     kept_requests(list(_CLEAR_LOG), replay)
+                    keeps_requests(list(_CLEAR_LOG2), replay)
                 if name == "clear_incompatible":
                     continue    # no property statement of its own: the direct calls only feed the two ties above
                 if st in ("internal", "hang"):
